@@ -25,7 +25,7 @@ def run(ctx):
                                               dict(module_rel="set/SplitListMC.tla", cfg_rel="set/SplitList_bad_NoParentInit.cfg", workers=4, expect_violation="LinOK", timeout=3000),
                                               dict(module_rel="set/FeldmanMC2.tla", cfg_rel="set/Feldman_q3.cfg", workers=8, timeout=3000)]), par=6)
     n = 0 if q else 8
-    deep = [("dfs", 1500 if q else 300000, 2 if q else 3)]
+    deep = [("dfs", 900 if q else 300000, 2 if q else 3)]
     ps = SC.PROGRAMS + GROW + [SC.gen_program(ctx.rng, SC.VOC_FULL, keys=4) for _ in range(n)]
     jobs = make_jobs(ctx, "set_hash", STD, ps, group_of=lambda v: "std") + make_jobs(ctx, "set_hash", REPL, ps, group_of=lambda v: "repl")
     jobs += make_jobs(ctx, "set_hash", STD, SC.DEEP[:2], group_of=lambda v: "std", strat=deep) + make_jobs(ctx, "set_hash", REPL, SC.DEEP[:2], group_of=lambda v: "repl", strat=deep)
